@@ -297,6 +297,31 @@ def rule_attack_ops(ctx):
         r.check(ok, owner + "::n_attacks", "shape", "n_attacks() = attacks.len() - removed", loc=nb.loc())
 
 
+def _local_roots(b, op, limit=8):
+    """named / single-definition locals an operand is a plain copy or borrow of"""
+    out = set()
+    p = op_place(op)
+    work = [p["l"]] if p is not None else []
+    seen = set()
+    while work and len(seen) < 40:
+        l = work.pop()
+        if l in seen:
+            continue
+        seen.add(l)
+        out.add(l)
+        for d in b.defs.get(l, []):
+            if d.si is None or d.node["k"] != "assign":
+                continue
+            rv = d.node["rv"]
+            if rv["k"] in ("use", "cast"):
+                q = op_place(rv["ops"][0])
+                if q is not None and (not q["p"] or q["p"] == ["*"]):
+                    work.append(q["l"])
+            elif rv["k"] == "ref" and (not rv["place"]["p"] or rv["place"]["p"] == ["*"]):
+                work.append(rv["place"]["l"])
+    return out
+
+
 def rule_index_pairing(ctx):
     prog = ctx.prog
     r = ctx.rule(
@@ -388,6 +413,61 @@ def rule_index_pairing(ctx):
                 r.ok(anchor, "searched collection not resolved (%s): NOT decided" % sorted(searched), x.site.loc())
                 continue
             r.check(searched == {f}, anchor, "searched=%s" % sorted(searched), "the removed slot of %s is the one found by a search of %s" % (f, f), "an entry of %s is removed at a position found by searching %s: the two lists hold an attack at unrelated positions, so another attack is dropped from %s (or the call panics)" % (f, sorted(searched), f), x.site.loc())
+    # removal by value: `list.retain(|id| *id != x)` keeps everything but x, which must be the id of the attack tombstoned in the same function
+    for f in idx_fields:
+        for x in _muts(prog, owner, f):
+            if x.op != "index_mut>alloc::vec::Vec::retain":
+                continue
+            b = x.site.body
+            c = callee_of(x.site)
+            clos = [prog.lib(fa) for fa in (c.get("fn_args") or [])] if c else []
+            clos = [cl for cl in clos if cl is not None]
+            if len(clos) != 1:
+                continue
+            cl = clos[0]
+            kept_out = None  # capture field compared with the element
+            for st in cl.sites():
+                nd = st.node
+                if st.si is not None and nd["k"] == "assign" and nd["rv"]["k"] == "binop" and nd["rv"]["op"] in ("Ne", "Eq"):
+                    for o2 in nd["rv"]["ops"]:
+                        for o in origins(cl, o2, transparent=()):
+                            if o.kind == "upvar":
+                                kept_out = o.data
+            if kept_out is None:
+                continue
+            from ..tags import _closure_capture_operand
+
+            par, cap = _closure_capture_operand(prog, cl, kept_out)
+            if cap is None or par is not b:
+                continue
+            cap_roots = {o.data for o in origins(b, cap, transparent=()) if o.kind in ("param",)} | _local_roots(b, cap)
+            tomb_roots = set()
+            for s2 in b.calls():
+                if callee_decl(callee_of(s2)) == "core::ops::index::IndexMut::index_mut" and fld in self_fields_read(b, s2.node["args"][0], through_calls=False):
+                    # a store of None through the returned reference
+                    dstl = s2.node["dst"]["l"]
+                    stores_none = False
+                    for st in b.sites():
+                        nd = st.node
+                        if st.si is None or nd["k"] != "assign" or nd["dst"]["l"] != dstl or nd["dst"]["p"] != ["*"]:
+                            continue
+                        if nd["rv"]["k"] == "aggregate" and nd["rv"]["agg"].get("variant") == "None":
+                            stores_none = True
+                        elif nd["rv"]["k"] == "use":
+                            k0 = op_const(nd["rv"]["ops"][0])
+                            if k0 is not None and str(k0.get("ty", "")).startswith("core::option::Option<"):
+                                stores_none = True
+                            for o in origins(b, nd["rv"]["ops"][0], transparent=()):
+                                if o.kind == "agg" and o.data.get("variant") == "None":
+                                    stores_none = True
+                    if stores_none:
+                        tomb_roots |= _local_roots(b, s2.node["args"][1])
+            anchor = "%s.%s|%s|retain-value" % (owner, f, x.fn.path)
+            if not tomb_roots:
+                r.ok(anchor, "no attack is tombstoned in this function: NOT decided", x.site.loc())
+                continue
+            n_rm += 1
+            r.check(bool(cap_roots & tomb_roots), anchor, "retain-by-other-value", "the entries removed from %s are those equal to the id of the tombstoned attack" % f, "`retain` removes from %s the entries equal to a value that is not the id of the attack tombstoned here: other attacks disappear from the per-argument list (or the removed one stays)" % f, x.site.loc())
     r.floor(n_rm, 2, "positional removals from the per-argument index lists")
 
 
